@@ -287,6 +287,61 @@ def s_enum_eq(e, st, callee, args, dty):
     return NotImplemented
 
 
+def s_is_some_and(e, st, callee, args, dty):
+    """Option::is_some_and / is_none_or, Result::is_ok_and / is_err_and"""
+    v, f = args[0], args[1]
+    m = meth_name(callee)
+    items = []
+    if _is_result(callee):
+        for c, ok, p in result_variants(e, st, v):
+            if ok == (m == "is_ok_and"):
+                inv = closure_invocation(e, st, f, [p])
+                if inv is None:
+                    return NotImplemented
+                items.append((c, inv))
+            else:
+                items.append((c, Bool(z3.BoolVal(False))))
+    else:
+        for c, some, p in option_variants(e, st, v):
+            if some:
+                inv = closure_invocation(e, st, f, [p])
+                if inv is None:
+                    return NotImplemented
+                items.append((c, inv))
+            else:
+                items.append((c, Bool(z3.BoolVal(m == "is_none_or"))))
+    return _alts(items)
+
+
+def s_map_or(e, st, callee, args, dty):
+    """Option::map_or(default, f) / Result::map_or(default, f)"""
+    v, d, f = args[0], args[1], args[2]
+    items = []
+    variants = result_variants(e, st, v) if _is_result(callee) else option_variants(e, st, v)
+    for c, good, p in variants:
+        if good:
+            inv = closure_invocation(e, st, f, [p])
+            if inv is None:
+                return NotImplemented
+            items.append((c, inv))
+        else:
+            items.append((c, d))
+    return _alts(items)
+
+
+def s_bool_then(e, st, callee, args, dty):
+    """bool::then(f) / bool::then_some(v)"""
+    c = args[0]
+    if not isinstance(c, Bool):
+        return NotImplemented
+    if meth_name(callee) == "then_some":
+        return [(c.t, SOME(args[1])), (z3.Not(c.t), NONE())]
+    inv = closure_invocation(e, st, args[1], [], SOME)
+    if inv is None:
+        return NotImplemented
+    return _alts([(c.t, inv), (z3.Not(c.t), NONE())])
+
+
 P = r"^(std::option::|core::option::)?Option::"
 R = r"^(std::result::|core::result::)?Result::"
 
@@ -301,6 +356,9 @@ SUMMARIES = {
     P + r"as_ref$": s_as_ref, R + r"as_ref$": s_as_ref,
     P + r"zip$": s_zip,
     R + r"map_err$": s_map_err,
+    r"^(core::bool::|std::bool::)?(<impl bool>::|bool::)?then(_some)?$": s_bool_then,
+    P + r"(is_some_and|is_none_or)$": s_is_some_and, R + r"(is_ok_and|is_err_and)$": s_is_some_and,
+    P + r"map_or$": s_map_or, R + r"map_or$": s_map_or,
     r"^<(std::|core::)?(option::|result::)?(Option|Result)<.*> as (std::iter::)?IntoIterator>::into_iter$": s_enum_into_iter,
     r"^<.* as (std::iter::)?Iterator>::for_each$": s_for_each,
     r"^<.* as (std::iter::)?Iterator>::filter$": s_filter01,
